@@ -14,6 +14,7 @@ import (
 	"path/filepath"
 	"runtime/debug"
 	"sort"
+	"strconv"
 	"strings"
 	"sync"
 	"sync/atomic"
@@ -121,6 +122,8 @@ type Ctx struct {
 	ReplayJob   string
 	ReplayIndex int64
 	Replaying   bool
+	// TScale multiplies the thorough tier's case counts (per-property setting of the driver).
+	TScale int
 
 	mu       sync.Mutex
 	sum      Summary
@@ -140,7 +143,10 @@ const maxStoredViolations = 600
 const maxPerKey = 3
 
 func NewCtx(prop, tier string, seed int64, shard, nshards int, out string) *Ctx {
-	c := &Ctx{Prop: prop, Tier: tier, Seed: seed, Shard: shard, NShards: nshards, OutDir: out}
+	c := &Ctx{Prop: prop, Tier: tier, Seed: seed, Shard: shard, NShards: nshards, OutDir: out, TScale: 1}
+	if v, err := strconv.Atoi(os.Getenv("VERIF_TSCALE")); err == nil && v > 0 {
+		c.TScale = v
+	}
 	c.sum = Summary{Property: prop, Tier: tier, Seed: seed, Shard: shard, NShards: nshards,
 		Ops: map[string]*OpStat{}, Buckets: map[string]int64{}, Extra: map[string]any{}}
 	c.distinct = map[uint64]struct{}{}
@@ -163,7 +169,7 @@ func (c *Ctx) Thorough() bool { return c.Tier == "thorough" }
 // N picks the case count for the tier.
 func (c *Ctx) N(quick, thorough int) int {
 	if c.Thorough() {
-		return thorough
+		return thorough * c.TScale
 	}
 	return quick
 }
